@@ -7,6 +7,7 @@ import (
 	"math/rand"
 	"os"
 	"path/filepath"
+	"runtime"
 	"strings"
 	"sync"
 	"time"
@@ -249,6 +250,7 @@ func cmdStress(args []string) error {
 	fs := flag.NewFlagSet("stress", flag.ExitOnError)
 	ms := fs.Int("ms", 3000, "time budget")
 	nfiles := fs.Int("files", 40, "files per round")
+	hangS := fs.Int("hang", 90, "seconds after which a round that does not return is a hang")
 	fs.Parse(args)
 	r := vh.NewRand(506)
 	dir, err := os.MkdirTemp(".", "c05stress")
@@ -339,11 +341,25 @@ func cmdStress(args []string) error {
 				}
 			}()
 		}
-		helpers.RunAggregationLoop(ext, counter, func() {
-			_ = counter.Items()
-			_ = batcher.StatusString()
-			_ = helpers.FWriteExtractorSummary(ext, counter.ParseErrors())
-		})
+		loopDone := make(chan struct{})
+		go func() {
+			helpers.RunAggregationLoop(ext, counter, func() {
+				_ = counter.Items()
+				_ = batcher.StatusString()
+				_ = helpers.FWriteExtractorSummary(ext, counter.ParseErrors())
+			})
+			close(loopDone)
+		}()
+		select {
+		case <-loopDone:
+		case <-time.After(time.Duration(*hangS) * time.Second):
+			// the input is exhausted (small files on disk) and the loop does not return
+			buf := make([]byte, 1<<20)
+			buf = buf[:runtime.Stack(buf, true)]
+			fmt.Printf("{\"rounds\":%d,\"lines\":%d,\"hang\":%d}\n", rounds, lines, round)
+			os.Stderr.WriteString("C05-STRESS-HANG round " + fmt.Sprint(round) + "\n" + string(buf))
+			os.Exit(7)
+		}
 		close(stop)
 		wg.Wait()
 		logger.ImmediateLogs()
